@@ -21,7 +21,7 @@ fragmentations, interoperability with rust-libp2p (values, schedules, a foreign 
 """
 import re
 from paths import refine_cuts
-from common import short, slice_locals, closure_returns
+from common import short, slice_locals, closure_returns, ref_local
 import guards
 
 EXPLANATION = ("Guarded-by and return-shape rules over the MIR CFG of the multistream-select state machines: a negotiation completes only "
@@ -241,6 +241,81 @@ def r03_3(ctx, fx):
                detail="success must lie behind an equality (or membership) test between the confirmed and a proposed protocol")
 
 
+def _ok_edges_of(fn, local):
+    """edges on which the Result / bool held in `local` is Ok / Continue / true"""
+    out = set()
+    cp = fn.copies_of(local) | {local}
+    for sw, t, f in fn.bool_tests(local):
+        out.add((sw, t))
+    srcs = set(cp)
+    for b in fn.calls(r"ops::Try>?::branch$"):
+        a = b.args[0].get("m") or b.args[0].get("c")
+        if a and a[0] in cp and b.dest:
+            srcs |= fn.copies_of(b.dest[0]) | {b.dest[0]}
+    for sw in fn.discr_switches():
+        if sw[1] and sw[1][0] in srcs:
+            for v in ("Ok", "Continue"):
+                for lab in fn.variant_edges(sw, v):
+                    others = [l for w in list(sw[3]) + list(sw[5]) if w != v for l in fn.variant_edges(sw, w)]
+                    if lab not in others:
+                        out.add((sw[0], lab))
+    return out
+
+
+def r03_7(ctx, fx):
+    """"no application byte is consumed by the negotiation", message-based dialer: when the confirmation has been decoded, the bytes
+    that follow it in the same transport message are application bytes.  `WebRtcDialerState::register_response` reports `Succeeded`
+    only if nothing is left (`remaining.is_empty()`, tested directly or by a helper whose success it requires) or hands the leftover
+    on with the result.  Logging and dropping it loses the peer's first frame while both sides believe the substream is open."""
+    fn = ctx.fn(fx, "multistream_select::dialer_select::WebRtcDialerState::register_response", "R03.7")
+    if fn is None:
+        return
+    succ = [(n, s) for n, s in fn.aggregates(r"dialer_select::HandshakeResult$", "Succeeded")]
+    cuts = [c for c in fn.calls(r"Bytes::split_to$|Buf>?::advance$|Bytes::split_off$")]
+    rem = {ref_local(fn, c.args[0]) for c in cuts} - {None}
+    ctx.anchor("R03.7", "register_response: the Bytes cursor over the payload (split_to / advance)", len(rem), 1, cfg=fx.cfg)
+    def is_rem(o):
+        if ref_local(fn, o) in rem:
+            return True
+        # closure calls pass their arguments as one tuple
+        pl = o.get("m") or o.get("c")
+        d = fn.single_def(pl[0]) if pl and len(pl) == 1 else None
+        if d is not None and d[1] == "assign" and d[2]["rv"]["r"] == "agg" and "tuple" in str(d[2]["rv"].get("adt", "tuple")):
+            return any(ref_local(fn, x) in rem for x in d[2]["rv"].get("ops", []))
+        return False
+    good = set()
+    for c in fn.calls(r"Bytes::is_empty$"):
+        if is_rem(c.args[0]):
+            for sw, t, f in fn.bool_tests(c.dest[0]):
+                good.add((sw, t))
+    for c in fn.calls(r"Bytes::len$|Buf>?::remaining$"):
+        if is_rem(c.args[0]):
+            for sw, lab, rel, cn in guards.edge_facts(fn, lambda f, o: c.dest[0] in slice_locals(f, o, strict=True), lambda f, o: f.const_value(o) == 0):
+                if rel in ("==", "<="):
+                    good.add((sw, lab))
+    helpers = []
+    for c in fn.calls(r"."):
+        if c.from_macro or not c.dest or not fx.has(c.name) or not any(is_rem(a) for a in c.args):
+            continue
+        h = fx.fn(c.name)
+        ie = set()
+        for e in h.calls(r"Bytes::is_empty$"):
+            if any(x.startswith("param:") for x in guards.rootstrs(h, e.args[0])):
+                for sw, t, f in h.bool_tests(e.dest[0]):
+                    ie.add((sw, t))
+        oks = [n for n, s_ in h.aggregates(r"result::Result$", "Ok")]
+        if ie and oks and all(n not in h.reach([h.entry], cut=ie) for n in oks):
+            helpers.append(short(c.name))
+            ctx.bodies.add((fx.cfg, c.name))
+            good |= _ok_edges_of(fn, c.dest[0])
+    starts = [n for c in cuts for n, _ in fn.succs(c.node)]
+    for i, (n, s_) in enumerate(succ):
+        guarded = bool(good) and n not in fn.reach(starts, cut=good)
+        handed = any(set(slice_locals(fn, o)) & rem for o in s_["rv"].get("ops", []))
+        ctx.ob("R03.7", "register_response/Succeeded#%d-does-not-discard-trailing-bytes" % i, guarded or handed, site=fn.site(n), cfg=fx.cfg,
+               detail="emptiness tests of the cursor that guard the result: %d (helpers: %s); leftover handed on with the result: %s" % (len(good), helpers, handed))
+
+
 def r03_4(ctx, fx):
     for meth, inner_rx in (("AsyncRead>::poll_read", r"AsyncRead>?::poll_read$"), ("AsyncWrite>::poll_write", r"AsyncWrite>?::poll_write$"),
                            ("AsyncWrite>::poll_flush", r"AsyncWrite>?::poll_flush$"), ("AsyncWrite>::poll_close", r"AsyncWrite>?::poll_close$")):
@@ -357,5 +432,6 @@ def run(ctx):
     r03_3(ctx, fx)
     r03_4(ctx, fx)
     r03_6(ctx, fx)
+    r03_7(ctx, fx)
     ctx.assume("Protocol equality is byte equality of the names; MessageIO frames/deframes whole messages (C19 covers its decoder)")
     ctx.assume("agreement on the first common protocol, termination and fragmentation independence are NOT decided (values / histories / foreign peer)")
